@@ -36,7 +36,7 @@ func faultOn(rng *Rng, sc *Scenario, fn string, kind string) Fault {
 		size = sf.Size
 	}
 	switch kind {
-	case "trunc":
+	case "trunc", "cut":
 		f.N = rng.Intn(size + 1)
 	case "flip":
 		f.N = rng.Intn(size + 1)
@@ -393,6 +393,7 @@ func (c *Ctx) stageHTTP(refs map[refKey]*Ref, keys []refKey) {
 			for _, nb := range []int{0, 1, 2, size - 1} {
 				if nb >= 0 {
 					sysFaults = append(sysFaults, Fault{Op: "http", At: "url:" + fn, Kind: "trunc", N: nb})
+					sysFaults = append(sysFaults, Fault{Op: "http", At: "url:" + fn, Kind: "cut", N: nb})
 				}
 			}
 			sysFaults = append(sysFaults, Fault{Op: "http", At: "url:" + fn, Kind: "empty"})
@@ -405,7 +406,7 @@ func (c *Ctx) stageHTTP(refs map[refKey]*Ref, keys []refKey) {
 				faults = []Fault{sysFaults[i-n]}
 			} else if i > 0 {
 				fn := files[rng.Intn(len(files))]
-				kind := []string{"err", "trunc", "mime", "charset", "empty", "flip", "transient"}[rng.Intn(7)]
+				kind := []string{"err", "trunc", "mime", "charset", "empty", "flip", "transient", "cut"}[rng.Intn(8)]
 				if kind == "flip" && textResource(ref.Sc, fn) {
 					kind = "trunc"
 				}
